@@ -99,14 +99,22 @@ package clickhouse_planner
 //@   modifies nothing
 // Substring filters become like(...)/notLike(...) == 1 on a raw SQL expression (never a match() node).
 //@ spec fn isRawCmp(c sql.SQLCondition) bool = typeis(c, "*sql.LogicalOp") && len(unbox(c, "*sql.LogicalOp").clauses) == 2 && typeis(unbox(c, "*sql.LogicalOp").clauses[0], "*sql.RawObject")
+// sqlLit(s): the SQL string literal StringVal renders for s (quotes included).
+// likeLiteral(b): b with every LIKE wildcard escaped, so that it matches itself only.
+//@ spec fn sqlLit(s string) string
+//@ spec fn likeLiteral(b string) string = replaceAll(replaceAll(b, "%", "\\%"), "_", "\\_")
 //@ func (*LineFilterPlanner).enquoteStr
 //@   modifies nothing
+//@   ensures result1 == nil ==> result0 == sqlLit(str)
 //@ func (*LineFilterPlanner).doLike [C07]
 //@   modifies nothing
 //@   ensures result1 == nil ==> isRawCmp(result0)
+// The substring pattern: % + the literal's body with all wildcards escaped + %.
 //@ func (*LineFilterPlanner).doLikeVal [C07]
 //@   modifies nothing
 //@   ensures result1 == nil ==> isRawCmp(result0)
+//@   ensures pattern: result1 == nil ==> unbox(unbox(result0, "*sql.LogicalOp").clauses[0], "*sql.RawObject").val == likeOp + "(samples.string, '%" + likeLiteral(strTrim(sqlLit(val), "'")) + "%')"
+//@   ensures is-true: result1 == nil ==> isIntCmp(result0) && opOf(result0) == "==" && intOf(result0) == 1
 
 // A prepared plan is executed again by live tailing: Process must not change
 // the planner's configuration (frame: only the statement being built and the
